@@ -1,41 +1,76 @@
-/-! probe: taskpool.TaskPool as a transition system at the granularity of its atomic operations -/
+/-! M9: `taskpool.TaskPool` (taskpool/taskpool.go) as a transition system whose steps are the
+individual atomic operations, channel operations and task boundaries of `fork`, `Go`, the worker
+loop, the dispatcher goroutine and `Stop` (DESIGN §5.1).  `IOTaskPool` only wraps the task.
+
+The model describes the tree **with the repair** of defect #10 (DESIGN §8): the dispatcher
+decrements `concurrent` again when its `fork` fails (step `dUndo`).  `Cfg.leak = true` gives the
+pinned behaviour (no decrement) and is used for the counterexamples only.
+
+State
+* `conc`     `tp.concurrent`
+* `queue`    contents of `tp.chQqueue` (capacity `cap`; `cap = 0` is an unbuffered channel: a send
+             completes only by rendezvous with a receiver)
+* `workers`  goroutines started by `fork`: inside a task / between tasks (about to `select`) /
+             took the `default` branch, deferred decrement pending
+* `disp`     the dispatcher goroutine: blocked in `select` / holds a task taken from the queue /
+             its `fork` failed (counter incremented) / runs the task inline / returned
+* `goers`    `Go` calls in flight after a failed `fork`: decrement pending / send pending
+* `stopAdd`, `closed`   `Stop`'s two statements
+* histories: `handed` (tasks passed to `Go`), `done` (tasks that returned or panicked),
+             `dropped` (tasks whose `Go` returned through `<-chClose`), `panics` -/
 namespace TPool
 
-inductive Disp | idle | holding (t : Nat) | running (t : Nat)
+inductive WPh | running (t : Nat) | idle | exiting
   deriving DecidableEq, Repr
 
-inductive GoPh | failed (t : Nat) | enq (t : Nat)   -- in-flight Go() calls after a failed fork
+inductive Disp | idle | holding (t : Nat) | failed (t : Nat) | running (t : Nat) | exited
   deriving DecidableEq, Repr
 
-structure St where
-  conc    : Int
-  queue   : List Nat
-  workers : List (Option Nat)     -- some t: running t; none: between tasks
-  disp    : Disp
-  goers   : List GoPh
-  done    : List Nat
+inductive GoPh | failed (t : Nat) | enq (t : Nat)
   deriving DecidableEq, Repr
 
 structure Cfg where
-  maxC : Int        -- tp.maxConcurrent = New's argument - 1
-  cap  : Nat        -- channel capacity
+  maxC : Int            -- tp.maxConcurrent = New's first argument - 1
+  cap  : Nat            -- capacity of chQqueue
+  leak : Bool := false  -- true: the pinned tree (no decrement after the dispatcher's failed fork)
+
+structure St where
+  conc    : Int := 0
+  queue   : List Nat := []
+  workers : List WPh := []
+  disp    : Disp := .idle
+  goers   : List GoPh := []
+  stopAdd : Bool := false
+  closed  : Bool := false
+  done    : List Nat := []
+  dropped : List Nat := []
+  handed  : List Nat := []
+  panics  : Nat := 0
+  deriving DecidableEq, Repr
 
 inductive Act
-  | go (t : Nat)                 -- Go: AddInt64(+1) and the comparison; fork or fall through
-  | goUndo (i : Nat)             -- AddInt64(-1) after the failed fork
-  | goEnq (i : Nat)              -- chQqueue <- f
-  | wFinish (i : Nat)            -- worker i: task returns
-  | wTake (i : Nat)              -- worker i: select { <-queue | default: return (deferred -1) }
-  | dRecv                        -- dispatcher: f := <-queue
-  | dFork                        -- dispatcher: fork(f) or run inline
-  | dFinish                      -- dispatcher: inline task returns
+  | go (t : Nat)                 -- Go → fork: AddInt64(+1), the comparison, `go func(){…}()` or fall through
+  | goUndo (i : Nat)             -- Go: AddInt64(-1) after the failed fork
+  | goEnq (i : Nat)              -- Go: `tp.chQqueue <- f` completes
+  | goDrop (i : Nat)             -- Go: `<-tp.chClose` taken instead
+  | wFinish (i : Nat) (p : Bool) -- worker i: the task returns (p: panics into caller's recover)
+  | wTake (i : Nat)              -- worker i: `select { case f = <-chQqueue: … default: return }`
+  | wRdv (i k : Nat)             -- worker i: its non-blocking receive meets the blocked sender k (unbuffered channel)
+  | wExit (i : Nat)              -- worker i: deferred AddInt64(-1)
+  | dRecv                        -- dispatcher: `f := <-tp.chQqueue`
+  | dExit                        -- dispatcher: `<-tp.chClose`, return
+  | dFork                        -- dispatcher: fork(f): AddInt64(+1), comparison, start a worker or not
+  | dUndo                        -- dispatcher: AddInt64(-1) after the failed fork (the repair), then run inline
+  | dFinish (p : Bool)           -- dispatcher: the inline task returns / panics
+  | stopAdd                      -- Stop: AddInt64(maxConcurrent)
+  | stopClose                    -- Stop: close(chClose)
   deriving Repr
 
 def step (g : Cfg) (s : St) : Act → Option St
   | .go t =>
     let v := s.conc + 1
-    if v < g.maxC then some { s with conc := v, workers := s.workers ++ [some t] }
-    else some { s with conc := v, goers := s.goers ++ [.failed t] }
+    if v < g.maxC then some { s with conc := v, workers := s.workers ++ [.running t], handed := s.handed ++ [t] }
+    else some { s with conc := v, goers := s.goers ++ [.failed t], handed := s.handed ++ [t] }
   | .goUndo i =>
     match s.goers[i]? with
     | some (.failed t) => some { s with conc := s.conc - 1, goers := s.goers.set i (.enq t) }
@@ -43,60 +78,88 @@ def step (g : Cfg) (s : St) : Act → Option St
   | .goEnq i =>
     match s.goers[i]? with
     | some (.enq t) =>
-      if s.queue.length < g.cap then some { s with queue := s.queue ++ [t], goers := s.goers.eraseIdx i } else none
+      if s.queue.length < g.cap then some { s with queue := s.queue ++ [t], goers := s.goers.eraseIdx i }
+      else if g.cap = 0 ∧ s.disp = .idle ∧ s.queue = [] then
+        some { s with disp := .holding t, goers := s.goers.eraseIdx i }     -- rendezvous with the dispatcher
+      else none
     | _ => none
-  | .wFinish i =>
+  | .goDrop i =>
+    match s.goers[i]? with
+    | some (.enq t) => if s.closed then some { s with dropped := s.dropped ++ [t], goers := s.goers.eraseIdx i } else none
+    | _ => none
+  | .wFinish i p =>
     match s.workers[i]? with
-    | some (some t) => some { s with workers := s.workers.set i none, done := s.done ++ [t] }
+    | some (.running t) => some { s with workers := s.workers.set i .idle, done := s.done ++ [t],
+                                         panics := if p then s.panics + 1 else s.panics }
     | _ => none
   | .wTake i =>
     match s.workers[i]? with
-    | some none =>
+    | some .idle =>
       match s.queue with
-      | t :: q => some { s with queue := q, workers := s.workers.set i (some t) }
-      | [] => some { s with workers := s.workers.eraseIdx i, conc := s.conc - 1 }
+      | t :: q => some { s with queue := q, workers := s.workers.set i (.running t) }
+      | [] => some { s with workers := s.workers.set i .exiting }
+    | _ => none
+  | .wRdv i k =>
+    match s.workers[i]?, s.goers[k]? with
+    | some .idle, some (.enq t) =>
+      if g.cap = 0 then some { s with workers := s.workers.set i (.running t), goers := s.goers.eraseIdx k } else none
+    | _, _ => none
+  | .wExit i =>
+    match s.workers[i]? with
+    | some .exiting => some { s with workers := s.workers.eraseIdx i, conc := s.conc - 1 }
     | _ => none
   | .dRecv =>
     match s.disp, s.queue with
     | .idle, t :: q => some { s with disp := .holding t, queue := q }
     | _, _ => none
+  | .dExit =>
+    match s.disp with
+    | .idle => if s.closed then some { s with disp := .exited } else none
+    | _ => none
   | .dFork =>
     match s.disp with
     | .holding t =>
       let v := s.conc + 1
-      if v < g.maxC then some { s with conc := v, workers := s.workers ++ [some t], disp := .idle }
-      else some { s with conc := v, disp := .running t }      -- NO decrement on this path (as in the code)
+      if v < g.maxC then some { s with conc := v, workers := s.workers ++ [.running t], disp := .idle }
+      else some { s with conc := v, disp := .failed t }
     | _ => none
-  | .dFinish =>
+  | .dUndo =>
     match s.disp with
-    | .running t => some { s with disp := .idle, done := s.done ++ [t] }
+    | .failed t => some { s with conc := if g.leak then s.conc else s.conc - 1, disp := .running t }
     | _ => none
+  | .dFinish p =>
+    match s.disp with
+    | .running t => some { s with disp := .idle, done := s.done ++ [t], panics := if p then s.panics + 1 else s.panics }
+    | _ => none
+  | .stopAdd => if s.stopAdd then none else some { s with conc := s.conc + g.maxC, stopAdd := true }
+  | .stopClose => if s.stopAdd && !s.closed then some { s with closed := true } else none
 
-def init : St := { conc := 0, queue := [], workers := [], disp := .idle, goers := [], done := [] }
+def init : St := {}
 
-def run (g : Cfg) (s : St) : List Act → St
-  | [] => s
-  | a :: as => match step g s a with
+/-- an action sequence; disabled actions are skipped -/
+def run (g : Cfg) : St → List Act → St
+  | s, [] => s
+  | s, a :: as => match step g s a with
     | some s' => run g s' as
     | none => run g s as
 
-def running (s : St) : Nat :=
-  (s.workers.filter Option.isSome).length + (match s.disp with | .running _ => 1 | _ => 0)
+def wTask : WPh → List Nat | .running t => [t] | _ => []
+def dTask : Disp → List Nat | .holding t | .failed t | .running t => [t] | _ => []
+def gTask : GoPh → List Nat | .failed t | .enq t => [t]
 
+def dRun : Disp → List Nat | .running t => [t] | _ => []
+def dPend : Disp → List Nat | .holding t | .failed t => [t] | _ => []
+
+/-- tasks inside `f()` right now -/
+def runningTasks (s : St) : List Nat := s.workers.flatMap wTask ++ dRun s.disp
+
+/-- tasks the pool holds without running them: in a `Go` call in flight, in the queue, or in the
+    dispatcher's hands -/
+def pendingTasks (s : St) : List Nat := s.goers.flatMap gTask ++ s.queue ++ dPend s.disp
+
+/-- nothing in the pool: no worker goroutine, empty queue, no `Go` in flight, dispatcher blocked in its select -/
 def idle (s : St) : Prop := s.workers = [] ∧ s.queue = [] ∧ s.goers = [] ∧ s.disp = .idle
 
-/-- capacity is lost for good: an idle state with a non-zero counter is reachable (bound 3, queue 1) -/
-theorem leak_counterexample :
-    let s := run ⟨2, 1⟩ init [.go 1, .go 2, .goUndo 0, .goEnq 0, .dRecv, .dFork, .wFinish 0, .wTake 0, .dFinish]
-    s.workers = [] ∧ s.queue = [] ∧ s.goers = [] ∧ s.disp = .idle ∧ s.conc = 1 ∧ s.done = [1, 2] := by
-  decide
-
-/-- ... after which no submission ever forks again: two tasks submitted to the idle pool both end up
-    on the dispatcher (serial), so two mutually waiting tasks deadlock -/
-theorem serial_after_leak :
-    let s0 := run ⟨2, 1⟩ init [.go 1, .go 2, .goUndo 0, .goEnq 0, .dRecv, .dFork, .wFinish 0, .wTake 0, .dFinish]
-    let s := run ⟨2, 1⟩ s0 [.go 3, .goUndo 0, .goEnq 0, .dRecv, .dFork]
-    running s = 1 ∧ s.workers = [] ∧ s.disp = .running 3 := by
-  decide
+instance (s : St) : Decidable (idle s) := by unfold idle; infer_instance
 
 end TPool
